@@ -6,7 +6,7 @@ import numpy as np
 from hypothesis import strategies as st
 
 from .. import gen
-from ..harness import Sub, Violation, Inconclusive, crash_is_violation
+from ..harness import Sub, Violation, Inconclusive, crash_is_violation, run_world
 from ..oracles import bspl, advect
 
 PROPERTY = "C11"
@@ -106,22 +106,83 @@ def line_pred(case):
     return {"nontrivial": (nout > 0 or case["c"] * case["dt"] < 0) and float(np.ptp(f)) > 0, "labels": labels}
 
 
-SUBS = {"line": Sub(line_pred, strategy=line_cases)}
+# ------------------------------------------------------------------------------------------------
+# grid level
+# ------------------------------------------------------------------------------------------------
+@st.composite
+def grid_cases(draw, tier):
+    from .. import sim
+    cfg = draw(sim.sim_config(tier))
+    maxP = 6 if tier == "quick" else 12
+    grids = sim.admissible_grids(cfg["npts"], maxP)
+    zsplit = [g for g in grids if g[1] > 1]
+    g = draw(st.sampled_from(zsplit if zsplit and draw(st.integers(0, 4)) > 0 else grids))
+    return {"cfg": cfg, "nprocs": g, "seed": draw(st.integers(0, 2 ** 16)), "edge": draw(st.sampled_from(["fEq", "fEq", "null"])),
+            "phiamp": draw(st.sampled_from([0.5, 3.0, 30.0])), "schedule": draw(gen.schedules(8))}
 
 
-def jobs(tier):
-    n = 200 if tier == "quick" else 5000
-    out = [{"sub": "line", "n": n, "shard": i} for i in range(16)]
-    try:
-        from .. import sim
-        out += sim.jobs_for("C11", tier)
-    except ImportError:
-        pass
+def _grid_rank(ctx, c):
+    from .. import sim
+    from pygyro.advection.advection import VParallelAdvection
+    rs = sim.RankSim(ctx.comm, c["cfg"], c["nprocs"], diagnostics=False)
+    f = rs.f
+    eta = f.eta_grid
+    F = sim.equilibrium_like_field(c["cfg"], eta, c["seed"])
+    Phi = c["phiamp"] * sim.smooth_noise_field(tuple(len(e) for e in eta[:3]), c["seed"] + 1)
+    adv = VParallelAdvection(eta, f.getSpline(3), rs.constants, edge=c["edge"])
+    phi = rs.new_phi('v_parallel_1d')
+    sim.fill(phi, Phi.astype(complex))
+    f.setLayout('v_parallel')
+    sim.fill(f, F)
+    adv.gridStep(f, phi, rs.parGrad, rs.parGradVals, rs.halfStep)
+    out = {"step": sim.piece(f)}
+    sim.fill(f, F)
+    adv.gridStepKeepGradient(f, rs.parGradVals, rs.halfStep)
+    out["keep"] = sim.piece(f)
     return out
 
 
-try:
-    from .. import sim as _sim
-    SUBS.update(_sim.subs_for("C11"))
-except ImportError:
-    pass
+def grid_pred(c):
+    from .. import sim, gridref
+    from ..simmpi import core
+    cfg = c["cfg"]
+    P = c["nprocs"][0] * c["nprocs"][1]
+    res, w = run_world(P, _grid_rank, (c,), schedule=c["schedule"], key="C11:grid")
+    g, consts = sim.setup_distrib(core.COMM_WORLD, cfg, "v_parallel", [1, 1], save=False)
+    eta = g.eta_grid
+    ref = gridref.GridRef(eta, [g.getSpline(i) for i in range(4)], consts)
+    F = sim.equilibrium_like_field(cfg, eta, c["seed"])
+    Phi = c["phiamp"] * sim.smooth_noise_field(tuple(len(e) for e in eta[:3]), c["seed"] + 1)
+    grad = ref.pargrad(Phi)
+    want = ref.vpar(F, grad, consts.dt * 0.5, c["edge"])
+    scale = float(np.abs(F).max())
+    nout = 0
+    for name in ("step", "keep"):
+        got = sim.assemble([r[name] for r in res], tuple(cfg["npts"]), name)
+        err = np.abs(got - want)
+        if not (err <= 1e-9 * scale).all():
+            idx = tuple(int(x) for x in np.argwhere(~(err <= 1e-9 * scale))[0])
+            raise Violation("C11:grid:" + name, "process grid %s, edge %s: line (r=%d, theta=%d, z=%d) node v=%d is %r; advecting it with "
+                            "the parallel gradient at that global position (%.4g) gives %r"
+                            % (c["nprocs"], c["edge"], idx[0], idx[1], idx[2], idx[3], got[idx], grad[idx[0], idx[2], idx[1]], want[idx]))
+    v = np.asarray(eta[3])
+    feet_out = bool(((v[None, None, None, :] - grad[:, :, :, None] * consts.dt * 0.5 < v[0]) |
+                     (v[None, None, None, :] - grad[:, :, :, None] * consts.dt * 0.5 > v[-1])).any())
+    return {"nontrivial": c["nprocs"][1] > 1, "labels": ["P=%d" % P, c["edge"], "z-split" if c["nprocs"][1] > 1 else "z-whole",
+                                                          "feet-outside" if feet_out else "all-inside"], "evals": 2}
+
+
+SUBS = {"line": Sub(line_pred, strategy=line_cases), "grid": Sub(grid_pred, strategy=grid_cases)}
+
+
+def init_worker(tier):
+    import warnings
+    from .. import sim
+    warnings.simplefilter("ignore")
+    sim.install()
+
+
+def jobs(tier):
+    n, ng = (200, 5) if tier == "quick" else (5000, 120)
+    return ([{"sub": "line", "n": n, "shard": i} for i in range(8)] +
+            [{"sub": "grid", "n": ng, "shard": i} for i in range(8)])
